@@ -180,7 +180,8 @@ class Session:
         if len(payload) > (self.max_msg if c.transport != "ws" else self.max_msg - 14):
             c.may_close = True      # longer than the configured maximum: the daemon ends the connection
             self.stats["oversize_messages"] += 1
-        c.sent_payloads.append(payload)
+        if c.track_input:
+            c.sent_payloads.append(payload)
         self.send_bytes(c, self.frame_for(c, payload, **kw), chunks)
         return True
 
